@@ -22,12 +22,16 @@ type c08cfg struct {
 	deadline                    string // "", "past", "future", "zero-after-past"
 	bound                       int
 	script                      []int // writer0 runs this instead: n>0 write n bytes, 0 = read one packet itself
+	shortReader                 bool  // reader 0 passes a slice shorter than the packets: its read is cut (io.ErrShortBuffer) and consumes the packet
 }
 
 func (c c08cfg) name() string {
 	s := fmt.Sprintf("buf R%d W%dx%d", c.readers, c.writers, c.perWriter)
 	if c.closer {
 		s += " +Close"
+	}
+	if c.shortReader {
+		s += " +short-slice reader"
 	}
 	if c.deadline != "" {
 		s += " +SRD(" + c.deadline + ")"
@@ -96,8 +100,11 @@ func c08scenario(c c08cfg) *explore.Scenario {
 				i := i
 				zzvsched.GoNamed(fmt.Sprintf("reader%d", i), func() {
 					buf := make([]byte, 4096)
+					if c.shortReader && i == 0 {
+						buf = buf[:4] // exactly the tag; the packets are longer
+					}
 					n, err := b.Read(buf)
-					res[i] = readRes{done: true, n: n, err: err, data: tagOf(buf[:n]), at: zzvsched.Elapsed()}
+					res[i] = readRes{done: true, n: n, err: err, data: strings.TrimSuffix(tagOf(buf[:n]), "-pad"), at: zzvsched.Elapsed()}
 				})
 			}
 			for w := 0; w < c.writers; w++ {
@@ -122,8 +129,12 @@ func c08scenario(c c08cfg) *explore.Scenario {
 					}
 					for k := 0; k < c.perWriter; k++ {
 						p := []byte(fmt.Sprintf("w%dp%d", w, k))
+						tag := string(p)
+						if c.shortReader {
+							p = append(p, "-pad"...)
+						}
 						if _, err := b.Write(p); err == nil {
-							written = append(written, string(p))
+							written = append(written, tag)
 						}
 						for j := range p {
 							p[j] = 'X' // the writer may reuse its slice at once
@@ -174,7 +185,7 @@ func c08scenario(c c08cfg) *explore.Scenario {
 				for i := 0; i < finalCount+1; i++ {
 					buf := make([]byte, 4096)
 					n, err := b.Read(buf)
-					tail = append(tail, readRes{done: true, n: n, err: err, data: tagOf(buf[:n])})
+					tail = append(tail, readRes{done: true, n: n, err: err, data: strings.TrimSuffix(tagOf(buf[:n]), "-pad")})
 				}
 			}
 		}
@@ -194,6 +205,11 @@ func c08scenario(c c08cfg) *explore.Scenario {
 				switch cl {
 				case "ok":
 					got = append(got, r.data)
+				case "short":
+					if !(c.shortReader && i == 0) {
+						return "", &explore.Violation{Msg: fmt.Sprintf("reader %d: short-buffer error with a 4096-byte slice", i), Sig: "C08 unexpected-error"}
+					}
+					got = append(got, r.data) // the cut read consumed that packet
 				case "timeout":
 					timeouts++
 					if dlSet == 0 && c.deadline == "" {
@@ -261,6 +277,15 @@ func c08scenario(c c08cfg) *explore.Scenario {
 				return out, &explore.Violation{
 					Msg: fmt.Sprintf("%d reader(s) still blocked in Read at quiescence while %d packet(s) are buffered (written=%v read=%v)", parked, finalCount, written, got),
 					Sig: "C08 reader-parked-with-data"}
+			}
+			// EOF only after the buffer has been drained: packets still buffered at the end were written before
+			// Close (later writes fail) and never taken, so they were buffered when a reader was told EOF
+			if c.closer && closed && finalCount > 0 {
+				for i, r := range res {
+					if r.done && errClass(r.err) == "eof" {
+						return out, &explore.Violation{Msg: fmt.Sprintf("reader %d was told end-of-file although %d packet(s) written before Close were (and still are) buffered (written=%v read=%v)", i, finalCount, written, got), Sig: "C08 eof-before-drained"}
+					}
+				}
 			}
 			if parked > 0 && c.closer && closed {
 				return out, &explore.Violation{Msg: "reader still blocked after Close", Sig: "C08 reader-parked-after-close"}
@@ -404,6 +429,8 @@ func init() {
 					{readers: 2, writers: 1, script: []int{2000, 30, 0, 40, 0, 1990}, bound: 1},
 					{readers: 1, writers: 0, deadline: "past-then-future", bound: 2},
 					{readers: 1, writers: 0, deadline: "future-zero-future", bound: 2},
+					{readers: 2, writers: 1, perWriter: 2, shortReader: true, bound: 2},
+					{readers: 2, writers: 2, perWriter: 1, shortReader: true, closer: true, bound: 2},
 				}
 			} else {
 				cfgs = []c08cfg{
@@ -419,6 +446,9 @@ func init() {
 					{readers: 3, writers: 1, script: []int{1500, 10, 500, 0, 0, 1000}, bound: 2},
 					{readers: 2, writers: 1, perWriter: 1, deadline: "past-then-future", bound: 3},
 					{readers: 2, writers: 0, deadline: "future-zero-future", bound: 3},
+					{readers: 2, writers: 1, perWriter: 2, shortReader: true, bound: 3},
+					{readers: 3, writers: 2, perWriter: 1, shortReader: true, bound: 2},
+					{readers: 2, writers: 2, perWriter: 1, shortReader: true, closer: true, bound: 2},
 				}
 			}
 			var out []*explore.Scenario
